@@ -3,6 +3,7 @@
 package scen
 
 import (
+	"os"
 	"crypto/sha256"
 	"fmt"
 	"regexp"
@@ -428,6 +429,10 @@ func init() {
 	Register("C06", func(tier string) *Runner {
 		b := base(tier)
 		return &Runner{Replay: b.Replay, Run: func(o RunOpts) Output {
+			if os.Getenv("C06_SHARED_ONLY") != "" { // development aid: only the second half
+				r := c06RunShared(o.Tier)
+				return Output{Summary: fmt.Sprintf("shared only: %+v", r), Evidence: map[string]interface{}{"coverage": map[string]interface{}{}}}
+			}
 			out := b.Run(o)
 			if len(out.Violations) > 0 || out.InternalError != "" {
 				return out
@@ -441,7 +446,8 @@ func init() {
 				"package_level_variables_hashed": r.Globals, "block_step_query_pairs": r.Pairs, "schedules_executed": r.Schedules, "preemption_bound": r.Bound,
 				"scheduling_points_in_default_schedules": r.Points, "max_points_in_one_schedule": r.MaxPoints, "points_by_variable": r.PointNames,
 				"variables_whose_contents_changed_during_the_check": r.ChangedGlobals, "schedules_stuck_on_a_blocking_primitive": r.Stuck,
-				"rule": "pre-states {after genesis, a transfer pending} x block steps {Send ethereum, Dep ethereum, Next, NextLong, Send minter} (6-decimals token, holders at discount tiers) x {DiscountForHolder(user), DiscountForHolder(recipient), simulation of a withdrawal}; both starting orders; a switch is possible at every point where the other thread is alive",
+				"block_steps_repeated_under_other_local_time_zones": r.ZoneRuns,
+				"rule": "pre-states {after genesis, a transfer pending, one transfer in a batch and one sent in the open even-height block} x block steps {Send ethereum, Dep ethereum, Next, NextLong, NextLong+Next, Send minter} (6-decimals token, holders at discount tiers) x {DiscountForHolder(user), DiscountForHolder(recipient), simulation of a withdrawal}; both starting orders; a switch is possible at every point where the other thread is alive",
 			}
 			out.Summary += fmt.Sprintf(" shared_state: globals=%d pairs=%d schedules=%d points=%d changed=%v stuck=%d", r.Globals, r.Pairs, r.Schedules, r.Points, r.ChangedGlobals, r.Stuck)
 			return out
